@@ -427,6 +427,10 @@ def iterations(ctx, body):
             c = ctx.F.bodies[a[1][1]]
             out.append({'kind': 'for_each', 'src': strip_iter(a[0]), 'where': c, 'item': ('param', c.name, 1, None),
                         'is_item': (lambda x, c=c: M.is_param(x, index=1) and x[1] == c.name), 'starts': [(0, 0)], 'ends': ret_points(c), 'at': p})
+        elif len(a) == 2 and isinstance(a[1], tuple) and a[1] and a[1][0] == 'fn':
+            # `.for_each(DashMap::clear)`: a function item applied to every element — `fn` names it, there is no per-element body
+            out.append({'kind': 'for_each_fn', 'src': strip_iter(a[0]), 'where': body, 'item': None, 'fn': a[1][1],
+                        'is_item': (lambda x: False), 'starts': [], 'ends': [], 'at': p})
     return out
 
 
